@@ -138,7 +138,7 @@ func (m *MTU) marshal() ([]byte, error) {
 
 func (m *MTU) unmarshal(b []byte) error {
 	// t := b[0]
-	l := int(b[1]*8) - 2 // Exclude type and length fields from value's length.
+	l := int(b[1])*8 - 2 // Exclude type and length fields from value's length.
 	if l != 6 {
 		return fmt.Errorf("ndp: unexpected mtu option length: %d", l)
 	}
@@ -613,12 +613,12 @@ func (r *RawOption) Code() byte { return r.Type }
 func (r *RawOption) marshal() ([]byte, error) {
 	// Length specified in units of 8 bytes, and the caller must provide
 	// an accurate length.
-	l := int(r.Length * 8)
+	l := int(r.Length) * 8 // in int: a length of 32 or more does not fit a byte
 	if 1+1+len(r.Value) != l {
 		return nil, io.ErrUnexpectedEOF
 	}
 
-	b := make([]byte, r.Length*8)
+	b := make([]byte, l)
 	b[0] = r.Type
 	b[1] = r.Length
 
@@ -635,7 +635,7 @@ func (r *RawOption) unmarshal(b []byte) error {
 	r.Type = b[0]
 	r.Length = b[1]
 	// Exclude type and length fields from value's length.
-	l := int(r.Length*8) - 2
+	l := int(r.Length)*8 - 2
 
 	// Enforce a valid length value that matches the expected one.
 	if lb := len(b[2:]); l != lb {
